@@ -1,10 +1,26 @@
 import PyxModel.Sexp
+import PyxModel.Prebuild.Decode
+import PyxModel.Prebuild.Parse
+import PyxModel.Prebuild.Supported
 
-/-! driver commands of property C05 (stub: no command yet) -/
+/-! driver commands of property C05:
+      (c05 (<ee key letters>) (<class key letters>)) <BodyNode tree>)
+    answer: ((tokens of genTokens (canon tree)) <parseGen of those tokens, as a tree | none> <canon tree>
+             <T|F: the normal form lies in the statement set the theorems cover>) -/
 namespace Pyx.Driver.C05
-open Pyx Pyx.Sexp
+open Pyx Pyx.Sexp Pyx.Prebuild
 
 def handle : List Sexp → Option Sexp
+  | [sym "c05", ctx, body] =>
+    match decCtx ctx, decBody body with
+    | some c, some b =>
+      let cb := canon c b
+      let ts := genTokens cb
+      let back := match parseGen c ts with
+        | some b' => encBody b'
+        | none => sym "none"
+      some (list [list (ts.map encTok), back, encBody cb, ofBool (supported c cb)])
+    | _, _ => some (list [sym "error", sym "undecodable"])
   | _ => none
 
 end Pyx.Driver.C05
